@@ -18,7 +18,19 @@ fn hostile(g: &mut Rng, id: &str) -> (Vec<u8>, String) {
         o.extend_from_slice(body);
         o
     };
-    match g.below(8) {
+    match g.below(9) {
+        8 => {
+            // TE lists with weights that are not ordinary numbers (the response path parses them)
+            let n = *g.pick(&[1usize, 2, 5, 21, 22, 40, 200]);
+            let mut elems = vec![];
+            for i in 0..n {
+                let w = *g.pick(&["NaN", "nan", "inf", "-inf", "1e39", "-1", "0", "0.5", "1", "", "abc", "0x1p3", "1.5", "0.001"]);
+                let name = *g.pick(&["chunked", "identity", "trailers", "gzip", "x"]);
+                elems.push(if i % 3 == 0 && w.is_empty() { name.to_string() } else { format!("{};q={}", name, w) });
+            }
+            let name = *g.pick(&["TE", "te"]);
+            (line(&["GET /te HTTP/1.1".into(), idl, format!("{}: {}", name, elems.join(", "))], b""), "te_weights".into())
+        }
         0 | 1 => {
             // declared length far beyond what is sent
             let cl = g.pick(&[
